@@ -48,6 +48,7 @@ type workerOut struct {
 	Samples     []json.RawMessage `json:"samples"`
 	WallS       float64           `json:"wall_s"`
 	Exhaustive  bool              `json:"exhaustive"`
+	Next        int               `json:"next"`
 }
 
 type propMeta struct {
@@ -258,9 +259,11 @@ func main() {
 				env = append(env, "VERIF_ENUM=1")
 			}
 			from := j.from
+			var skips []string
 			for attempt := 0; ; attempt++ {
-				env2 := append(append([]string{}, env...), fmt.Sprintf("VERIF_FROM=%d", from))
+				env2 := append(append([]string{}, env...), fmt.Sprintf("VERIF_FROM=%d", from), "VERIF_SKIP="+strings.Join(skips, ","))
 				os.Remove(op)
+				os.Remove(op + ".partial")
 				o, err := run(verif, env2, perWorkerTimeout, bin, "-test.run", "^TestWorker$", "-test.timeout", "0")
 				data, rerr := os.ReadFile(op)
 				mu.Lock()
@@ -273,10 +276,19 @@ func main() {
 					if len(f) == 2 && err != nil && !strings.Contains(err.Error(), "timeout") {
 						idx, _ := strconv.Atoi(f[0])
 						crashes = append(crashes, crash{index: idx, seed: f[1], log: tail(o, 6000), enum: j.enum, spin: string(spin)})
+						// keep what the worker had checkpointed and carry on after it in a new process
+						next := from
+						if pd, perr := os.ReadFile(op + ".partial"); perr == nil {
+							var po workerOut
+							if json.Unmarshal(pd, &po) == nil {
+								outs = append(outs, po)
+								next = po.Next
+							}
+						}
 						mu.Unlock()
-						// carry on with the rest of this worker's range in a new process
-						if idx+1 < j.to && attempt < 8 {
-							from = idx + 1
+						skips = append(skips, strconv.Itoa(idx))
+						if attempt < 60 {
+							from = next
 							continue
 						}
 						return
@@ -526,7 +538,7 @@ func crashSite(dump string) string {
 	for _, l := range strings.Split(dump[i:], "\n") {
 		l = strings.TrimSpace(l)
 		if strings.HasPrefix(l, "github.com/netflix/rend/") {
-			if k := strings.Index(l, "("); k > 0 {
+			if k := strings.LastIndex(l, "("); k > 0 {
 				l = l[:k]
 			}
 			return l
